@@ -6,7 +6,7 @@ import Mutiny.Proofs.LockRingProps
 `fs.p.write` (`pWrite v len`) is where the setter of `publish` / a suspended `send_with_async` runs: the slot is leaked
 and the spin flag is held.  If that thread is not scheduled, no other thread ever acquires the flag, whatever the other
 threads do and for however long; the ring is frozen.  Conversely, with no other thread active, every operation finishes
-within 5 own steps.
+within 6 own steps.
 -/
 
 namespace Mutiny.LockRing
@@ -40,17 +40,17 @@ theorem c20_no_completion {n : Nat} {s : St} (hn : 0 < n) (h : Reachable n s) {u
   refine ⟨this, ?_, ?_, ?_, ?_⟩ <;> intros <;> intro e <;> simp [e, blockedLoc] at this
 
 /-- Positive counterpart: when all other threads are idle (hence nobody else holds the flag), any pending operation of
-`t` — wherever it is — reaches a `done` point within 5 of its own steps.  (The hypothesis `s.locked = false` of the
+`t` — wherever it is — reaches a `done` point within 6 of its own steps.  (The hypothesis `s.locked = false` of the
 informal statement is not needed: with the others idle, the flag can only be held by `t` itself.) -/
 theorem c20_solo_progress {n : Nat} {s : St} (hn : 0 < n) (h : Reachable n s) {t : Nat}
     (ho : ∀ u, u ≠ t → s.thr u = .idle) (ht : s.thr t ≠ .idle) :
-    ∃ k, k ≤ 5 ∧ ∃ r, (run s (List.replicate k (.step t))).thr t = .done r :=
+    ∃ k, k ≤ 6 ∧ ∃ r, (run s (List.replicate k (.step t))).thr t = .done r :=
   solo_progress_of_inv (reachable_inv hn h) ho ht
 
-/-- The same from the call: every call of `t` in a quiescent state completes within 5 own steps. -/
+/-- The same from the call: every call of `t` in a quiescent state completes within 6 own steps. -/
 theorem c20_solo_call_progress {n : Nat} {s : St} (hn : 0 < n) (h : Reachable n s) {t : Nat}
     (hidle : ∀ u, s.thr u = .idle) (a : Act) (ha : (∃ v, a = .send t v) ∨ a = .recv t ∨ a = .len t) :
-    ∃ k, k ≤ 5 ∧ ∃ r, (run s (a :: List.replicate k (.step t))).thr t = .done r := by
+    ∃ k, k ≤ 6 ∧ ∃ r, (run s (a :: List.replicate k (.step t))).thr t = .done r := by
   have hr := reachable_apply h a
   have ho : ∀ u, u ≠ t → (apply s a).thr u = .idle := by
     intro u hu
